@@ -12,7 +12,18 @@ def split_shape(p):
     """shape classes of a program that matter when it is split over two files (known-finding keys name the input class):
     two structures / words whose member types are the same list (the open defects around imported structures of equal layout)"""
     tags = []
-    layouts = [json.dumps([m["ty"] for m in d["ms"]], sort_keys=True) for d in p.get("structs", [])]
+    # (the layout as LLVM sees it: signedness is no part of an LLVM integer type, usize is a 64-bit integer)
+    def llvm_like(ty):
+        if isinstance(ty, dict):
+            if ty.get("k") == "prim":
+                t = ty.get("t", "")
+                bits = {"usize": "64", "char8": "8"}.get(t) or (t[1:] if t[:1] in "iu" and t[1:].isdigit() else t)
+                return {"k": "prim", "t": bits}
+            return {k: llvm_like(v) for k, v in ty.items()}
+        if isinstance(ty, list):
+            return [llvm_like(x) for x in ty]
+        return ty
+    layouts = [json.dumps([llvm_like(m["ty"]) for m in d["ms"]], sort_keys=True) for d in p.get("structs", [])]
     if len(set(layouts)) < len(layouts):
         tags.append("imported-same-layout")
     return (" [" + ",".join(tags) + "]") if tags else ""
